@@ -356,6 +356,8 @@ func TestVerif_C04Pipe(t *testing.T) {
 					return
 				}
 				defer r.cleanup()
+				// as after any earlier run of the daemon, the continuous recorder's folder exists already
+				os.MkdirAll(filepath.Join(r.OutDir, "constant-recordings"), 0755)
 				if uint64(r.Conf.MinDiskSpace) != cfg.MinDiskMB {
 					// the disk check the recorder is built with is the configured one (0 = check disabled)
 					c.Violation("disk-check-differs-from-config", v.Name, fmt.Sprintf("config.toml says min-disk-space-mb = %d, the parsed configuration holds %d", cfg.MinDiskMB, r.Conf.MinDiskSpace))
@@ -609,7 +611,7 @@ func TestVerif_C17Pipe(t *testing.T) {
 			return map[string]interface{}{"fps": cam.FPS, "max_secs": cfg.MaxSecs, "frames": nf, "throttle": cfg.Throttle, "telemetry_frozen": frozen, "window": cfg.WindowStart + "-" + cfg.WindowStop, "test_recording_requests_before_frames": []int{req1, req2}}
 		}, func() {
 			if tiny {
-				prepareOutName = "cptv [site 7] *?"
+				prepareOutName = "cptv.temp [site 7] *?" // (pattern characters, and the temporary-file suffix in a directory name)
 			}
 			r, err := prepareConn(scratch, cfg, cam)
 			prepareOutName = ""
@@ -629,11 +631,38 @@ func TestVerif_C17Pipe(t *testing.T) {
 			if tiny {
 				pace = 0
 			}
+			// (tiny files) finished recordings that already bear the names of the next 200 ms - what a
+			// clock set back, or another recorder sharing the folder, leaves: they are never replaced
+			planted := map[string]bool{}
+			var plantedBytes []byte
+			cdir := filepath.Join(r.OutDir, "constant-recordings")
 			r.serve(pacedFeed(cam, frames, pace), func(name string) {
 				if name == "conn.frame.received" {
 					k := int(atomic.AddInt64(&rx, 1)) - 1 // index of the frame about to be processed
 					if k == req1 || k == req2 {
 						newSnapshotRecording()
+					}
+					if tiny && k == 9 {
+						for _, n := range dirListing(cdir) {
+							if strings.HasSuffix(n, ".cptv") {
+								plantedBytes, _ = ioutil.ReadFile(filepath.Join(cdir, n))
+								break
+							}
+						}
+						now := time.Now()
+						// (from two milliseconds ahead: a file in progress may legitimately bear this
+						// millisecond's name already, and none that has a temporary file)
+						for i := 2; i < 200 && len(plantedBytes) > 0; i++ {
+							n := now.Add(time.Duration(i)*time.Millisecond).Format("20060102.150405.000.") + "cptv"
+							if _, err := os.Lstat(filepath.Join(cdir, n+".temp")); err == nil {
+								continue
+							}
+							if f, err := os.OpenFile(filepath.Join(cdir, n), os.O_CREATE|os.O_EXCL|os.O_WRONLY, 0644); err == nil {
+								f.Write(plantedBytes)
+								f.Close()
+								planted[n] = true
+							}
+						}
 					}
 				}
 			})
@@ -641,7 +670,21 @@ func TestVerif_C17Pipe(t *testing.T) {
 				c.Violation("pipeline-failed", "", fmt.Sprintf("handleConn returned %v", r.Err))
 				return
 			}
-			cfiles := decodeDir(filepath.Join(r.OutDir, "constant-recordings"))
+			for n := range planted {
+				if b, err := ioutil.ReadFile(filepath.Join(cdir, n)); err != nil || !bytes.Equal(b, plantedBytes) {
+					c.Violation("finished-recording-replaced", "main.go wiring", fmt.Sprintf("%s, a finished recording that was in the continuous recorder's folder before a file of that name was started, now reads %d bytes (err %v), it had %d: its frames are in no file any more", n, len(b), err, len(plantedBytes)))
+					return
+				}
+			}
+			if tiny {
+				c.Count("finished_recordings_in_the_way_left_alone", int64(len(planted)))
+			}
+			var cfiles []*decFile
+			for _, d := range decodeDir(cdir) {
+				if !planted[d.Name] {
+					cfiles = append(cfiles, d)
+				}
+			}
 			want := wantC
 			if frozen {
 				// decodeDir orders files by telemetry, which says nothing here: order by content
@@ -724,6 +767,9 @@ func TestVerif_C17Pipe(t *testing.T) {
 func TestVerif_C12Pipe(t *testing.T) {
 	c := vStart(t, "C12", "TestVerif_C12Pipe")
 	defer c.Finish()
+	// a storage fault that wedges the frame loop (a retry loop that never ends) shows as a
+	// connection that is never finished
+	c.CaseWatchdog(120 * time.Second)
 	scratch := vEnv("VERIF_SCRATCH", t.TempDir())
 	n := c.N(24, 400)
 	for idx := int64(0); idx < n; idx++ {
@@ -745,6 +791,9 @@ func TestVerif_C12Pipe(t *testing.T) {
 		frames := c10Frames(cam, pattern)
 		nf := len(frames)
 		faultKind := rng.Intn(3) // 0 remove output dir, 1 unlink temp files during a recording, 2 both
+		if idx%6 == 2 {
+			faultKind = 3 // the output directory's path is a plain file for a while (a card that failed to mount)
+		}
 		watcher := idx%4 == 1
 		if watcher {
 			// a real recording window, open now
@@ -753,6 +802,9 @@ func TestVerif_C12Pipe(t *testing.T) {
 		faultFrom := rng.Range(2, nf/3)
 		faultTo := nf - 27 - rng.Range(0, 5)
 		testReq := rng.Range(1, nf-30)
+		if faultKind == 3 {
+			testReq = faultFrom + 2 // the test recording is asked for while the path is unusable
+		}
 		longName := idx%6 == 4
 		if longName {
 			// a device name the CPTV header cannot hold: every recording start fails after its file
@@ -760,7 +812,7 @@ func TestVerif_C12Pipe(t *testing.T) {
 			cfg.DeviceName = strings.Repeat("n", 300)
 		}
 		c.Case(idx, func() interface{} {
-			return map[string]interface{}{"stream": pattern, "constant_recorder": cfg.Constant, "device_name_bytes": len(cfg.DeviceName), "fault_kind": []string{"output directory removed", "temp files unlinked mid-recording", "both"}[faultKind],
+			return map[string]interface{}{"stream": pattern, "constant_recorder": cfg.Constant, "device_name_bytes": len(cfg.DeviceName), "fault_kind": []string{"output directory removed", "temp files unlinked mid-recording", "both", "output directory replaced by a plain file"}[faultKind],
 				"fault_from_frame": faultFrom, "fault_until_frame": faultTo, "test_recording_request_before_frame": testReq}
 		}, func() {
 			r, err := prepareConn(scratch, cfg, cam)
@@ -798,6 +850,15 @@ func TestVerif_C12Pipe(t *testing.T) {
 				if k == testReq {
 					newSnapshotRecording()
 				}
+				if k == faultFrom && faultKind == 3 {
+					if os.Rename(r.OutDir, saved) == nil && ioutil.WriteFile(r.OutDir, []byte("not a directory"), 0644) == nil {
+						faults++
+					}
+				}
+				if k == faultTo && faultKind == 3 {
+					os.Remove(r.OutDir)
+					os.Rename(saved, r.OutDir)
+				}
 				if k == faultFrom && (faultKind == 0 || faultKind == 2) {
 					// the output directory disappears (e.g. an unmounted card): starts must fail, not crash
 					if os.Rename(r.OutDir, saved) == nil {
@@ -819,7 +880,7 @@ func TestVerif_C12Pipe(t *testing.T) {
 				}
 			})
 			if r.Err != io.EOF {
-				c.Violation("pipeline-crashed-on-storage-fault", []string{"output directory removed", "temp files unlinked", "both"}[faultKind], fmt.Sprintf("handleConn returned %v after %d injected faults", r.Err, faults))
+				c.Violation("pipeline-crashed-on-storage-fault", []string{"output directory removed", "temp files unlinked", "both", "output directory replaced by a plain file"}[faultKind], fmt.Sprintf("handleConn returned %v after %d injected faults", r.Err, faults))
 				return
 			}
 			if got := r.Hooks.counts["conn.frame.processed"]; got != nf {
@@ -857,6 +918,9 @@ func TestVerif_C12Pipe(t *testing.T) {
 				return
 			}
 			c.Count("pipeline_fault_runs", 1)
+			if faultKind == 3 {
+				c.Count("pipeline_runs_with_the_output_path_a_plain_file", 1)
+			}
 			c.Count("pipeline_faults_injected", int64(faults))
 			c.Nontrivial(vNewHash().U64(uint64(idx)).Int(faults).Sum())
 		})
